@@ -5,6 +5,8 @@ MC      MC_Admission: all 8192 (QR, opcode, qd, an, ns, ar) headers x decodes x 
         x {A, DS}: RouteSet invariants; the exactly-once counter machine (3 messages of the 6 disposition classes);
         PhaseIrrelevant: OutcomeAt(phase, ...) -- the lifecycle phase of the server when the read that carries the
         message completes (Admission!Phases: "serving", "stopping") is no exception to any clause.
+        HistoryIrrelevant: OutcomeAfter(prefix, ...) -- what the same socket / connection received before is no
+        exception either -- and EndsService: no message makes the serve call come back.
 GEN     Gen_Admission "pkt"/"short": header x body in {none, full, question cut at each octet, garbage, question only,
         full cut} with the outcome for both values of "decodes" -> `admission replay`: every packet injected into a real
         dns.Server over an in-memory net.PacketConn, an in-memory TCP listener and (a sample) a real UDP loopback socket;
@@ -19,6 +21,15 @@ GEN     Gen_Admission "pkt"/"short": header x body in {none, full, question cut 
         the harness calls Shutdown and waits (hook shutdown.unlock, observation only) until started is false, the
         readers are kicked and srv.lock is free, then the read returns -- successfully, with the message.  Forced by
         hand-offs, nothing depends on timing.  Finding keys server-<tr>/stopping/<clause>.
+        Gen_Admission "seq": ONE server life (one socket on pc, one connection on tcp) that receives every sequence of
+        2..3 (thorough: 4) messages of 8 classes (prefixes of 0 / 5 / 11 octets, handled, accepted-undecodable, FORMERR,
+        NOTIMP, ignored response), the k-th with its own ID; each message with the outcome OutcomeAfter gives it behind the
+        earlier ones and `ends` = EndsService (never).  Observations are handed to the messages by ID / by the octets reported.
+        Every vector of kind pkt carries `ends` too: a serve call that comes back by itself (its error), or a Shutdown that
+        finds the server not started, is an OBSERVATION compared with it (key server-<tr>/service-ended:<class>), on pc, tcp,
+        the real socket (the wait for the sentinel also watches the serve call) and in phase "stopping" -- never a failure
+        of the harness; messages a dead loop never took are not judged.  A tcp connection the server hangs up before the
+        sentinel is answered is read to its end, counted (note tcp_connections_ended_by_server) and dialled again.
         Every call the harness waits for runs under a watchdog: a call that does not return within 45 s is the verdict
         `.../hang:<call>` (the harness prints its summary and ends), never a stuck run.
 TV      `admission record pkt`: random / mutated queries through the three transports -> Trace_Admission (trichotomy, policy
@@ -26,7 +37,13 @@ TV      `admission record pkt`: random / mutated queries through the three trans
         `phase`, judged by OutcomeAt; keys server-<tr>/stopping/trace:<clause>).  `admission record mux`: 8 goroutines doing
         Handle/HandleRemove/ServeDNS with call/return sequence numbers -> Trace_Admission (each dispatch explained by a
         pattern set possible between start and end); the same recorder runs in a -race build, a race report in
-        miekg/dns code is a violation.
+        miekg/dns code is a violation.  Handlers are part of the schedule: every third dispatch of the concurrent phase
+        runs a handler that itself calls Handle / HandleRemove on the multiplexer that dispatched to it (an operation
+        event of its own, begun and ended inside the serve event); and each round ends with a forced overlap (hand-offs,
+        no timing): while one handler is still running -- it waits for the harness -- a pattern is registered / removed
+        and another request is dispatched; both must complete without the busy handler's help (keys mux/hang:concurrent,
+        mux/hang:Handle-while-a-handler-runs, mux/hang:HandleRemove-..., mux/hang:ServeDNS-while-a-handler-runs) and the
+        second dispatch must be explained by the pattern set the completed Handle / HandleRemove left.
 
 Mutants (checks/mutants/C14), all caught by GEN replay (stage in brackets):
   qdcount-gt1.diff            Qdcount != 1 -> > 1                [pkt: server-*/handler-invoked-unexpectedly:reject]
@@ -42,6 +59,13 @@ Mutants (checks/mutants/C14), all caught by GEN replay (stage in brackets):
                                .../reply-missing:formerr|notimp; TV pkt: server-pc|udp/stopping/trace:handler-count:accept ...]
   servetcpconn-recheck-after-read.diff  the same in serveTCPConn behind ReadTCP
                               [phase: server-tcp/stopping/handler-not-invoked:accept ...; TV pkt: server-tcp/stopping/trace:...]
+  short-datagram-is-a-read-error.diff (= seeded C14-20) readUDP / readPacketConn turn a datagram of < 12 octets into ErrShortRead, which
+                              serveUDP takes for a fatal read error: not reported, the serve call returns, the socket is closed
+                              [short, seq: server-pc|udp/service-ended:short, server-pc|udp/invalid-callback-missing:short;
+                               phase: server-pc/stopping/service-ended:short; TV pkt: server-pc|udp/trace:invalid-callback-count:short]
+  mux-rlock-held-while-handler-runs.diff (= seeded C14-19) ServeMux.ServeDNS keeps mux.m read-locked while the handler runs
+                              [TV mux: mux/hang:concurrent (a handler that calls Handle / HandleRemove on its own multiplexer never
+                               returns), else mux/hang:Handle-while-a-handler-runs | HandleRemove-while-a-handler-runs]
 """
 import os, json, re
 import vp
@@ -50,7 +74,7 @@ import vp
 def gen_replay(ctx, binp, mode, nshards, shards, workers=1):
     def one(sh):
         r, vecs = ctx.tlc_vectors("Gen_Admission", workers=workers, xmx="3g", timeout=3000,
-                                  consts={"Mode": '"%s"' % mode, "NShards": nshards, "Shard": sh})
+                                  consts={"Mode": '"%s"' % mode, "NShards": nshards, "Shard": sh, "SeqLen": 3 if ctx.quick else 4})
         path = os.path.join(r.dir, "vectors.ndjson")
         if not os.path.exists(path):
             raise vp.Infra("Gen_Admission mode %s produced no vectors" % mode)
@@ -132,6 +156,7 @@ def run(ctx):
             lambda: gen_replay(ctx, binp, "short", 1, [0]),
             lambda: gen_replay(ctx, binp, "phase", 64, [ctx.seed % 64]),
             lambda: gen_replay(ctx, binp, "route", 1, [0]),
+            lambda: gen_replay(ctx, binp, "seq", 1, [0]),
             lambda: tv(ctx, binp, "pkt", 1500, 2),
             lambda: tv(ctx, binp, "mux", 25, 1),
             lambda: race_run(ctx, 25),
@@ -143,6 +168,7 @@ def run(ctx):
             lambda: gen_replay(ctx, binp, "short", 1, [0]),
             lambda: gen_replay(ctx, binp, "phase", 4, range(4)),
             lambda: gen_replay(ctx, binp, "route", 1, [0]),
+            lambda: gen_replay(ctx, binp, "seq", 1, [0]),
             lambda: tv(ctx, binp, "pkt", 10000, 8),
             lambda: tv(ctx, binp, "mux", 250, 6),
             lambda: race_run(ctx, 300),
@@ -158,7 +184,8 @@ def run(ctx):
     ]
     return ctx.finish(rule="vectors: (QR, opcode 0..15, qd, an, ns, ar in 0..3) x 14 body kinds (all headers with bodies none/full, all "
                       "accepted headers with every body, the rest by shard) + 12 short prefixes, each through pc and tcp (+ udp sample); 64 "
-                      "pattern subsets x 19 question names x 3 types with rotating request flavours; events: random/mutated queries "
+                      "pattern subsets x 19 question names x 3 types with rotating request flavours; every sequence of 2..3 (thorough 4) messages of 8 "
+                      "classes through one server life (pc socket / tcp connection); events: random/mutated queries "
                       "(bit flips, truncations, count/opcode/QR edits, appended or random octets), concurrent mux operations of 8 "
                       "goroutines in rounds of 48.  distinct = distinct packets / routing cases; non-trivial = all")
 
